@@ -3,54 +3,43 @@ package main
 import (
 	"fmt"
 	"math/rand"
+	"os"
+	"os/exec"
 	"strings"
 	"sync"
 )
 
-// runConcurrent: generate the cases of the families sequentially, then execute all of them again on g goroutines at once,
+// runConcurrent: obtain the cases of the families with their sequential results, then execute all of them on g goroutines at once,
 // every goroutine in its own order, on shared argument slices, and compare every result with the sequential one.
 // Emits one case line:  conc <families> <cases> <goroutines> <OK | MISMATCH …>
 func runConcurrent(fams string, n int, seed int64, g int) {
-	saved := out
-	var sb strings.Builder
-	bw := newBufWriter(&sb)
-	out = bw
-	for _, f := range strings.Split(fams, ",") {
-		gen, ok := families[f]
-		if !ok {
-			panic("unknown family " + f)
-		}
-		h := int64(0)
-		for _, c := range f {
-			h = h*131 + int64(c)
-		}
-		rng = rand.New(rand.NewSource(seed*1000003 + h))
-		gen(n)
+	// The cases and their sequential results are produced by a CHILD process (this binary in generation mode), so that this
+	// process has executed no library code when the goroutines start: a lazily initialised package-level cache is then first
+	// written under concurrency, where the race detector sees it.
+	child := exec.Command(os.Args[0], "-fam", fams, "-n", fmt.Sprint(n), "-seed", fmt.Sprint(seed))
+	child.Stderr = os.Stderr
+	gen, err := child.Output()
+	if err != nil {
+		fmt.Fprintln(os.Stderr, "generation child failed:", err)
+		os.Exit(3)
 	}
-	bw.Flush()
-	out = saved
 	type cs struct {
 		op   string
 		args []string
 		res  string
 	}
 	var cases []cs
-	for _, line := range strings.Split(sb.String(), "\n") {
+	for _, line := range strings.Split(string(gen), "\n") {
 		if line == "" {
 			continue
 		}
 		f := strings.Split(line, "\t")
-		if f[0] == "det" {
+		if f[0] == "det" || len(f) < 2 {
 			continue
 		}
 		cases = append(cases, cs{f[0], f[1 : len(f)-1], f[len(f)-1]})
 	}
-	// warm-up: fill the shared slice cache sequentially
-	shareSlices = true
-	for _, c := range cases {
-		guard(func() string { return ops[c.op](c.args) })
-	}
-	cacheFrozen = true
+	shareSlices = true // argument slices and points are shared between the goroutines (caches guarded by mutexes)
 	var wg sync.WaitGroup
 	var mu sync.Mutex
 	bad := ""
